@@ -54,7 +54,22 @@ var protoStr = rapid.OneOf(
 	rapid.StringMatching(`[a-zA-Z0-9_ .:-]{1,12}`),
 	rapid.Map(rapid.SliceOfN(rapid.Byte(), 1, 20), func(b []byte) string { return string(b) }),
 	rapid.Map(rapid.IntRange(120, 300), func(n int) string { return string(bytes.Repeat([]byte("q"), n)) }),
+	// lengths on the first boundary of the uvarint length prefix
+	rapid.Map(rapid.SampledFrom([]int{126, 127, 128, 129, 255, 256}), func(n int) string { return string(bytes.Repeat([]byte("b"), n)) }),
 )
+
+// protoStrWide (C17 only: the other users enumerate every cut or segmentation of a message)
+// adds the second length boundary and strings longer than the reader's 128 KiB buffer.
+var protoStrWide = rapid.OneOf(protoStr, protoStr, protoStr, protoStr,
+	rapid.Map(rapid.SampledFrom([]int{16383, 16384, 16385}), func(n int) string { return string(bytes.Repeat([]byte("B"), n)) }),
+	rapid.Map(rapid.SampledFrom([]int{100_000, 131_071, 131_072, 131_073, 200_000}), func(n int) string {
+		c17Heavy = true // such a message is tried at the representative revisions only, also in the thorough tier
+		return string(bytes.Repeat([]byte("L"), n))
+	}),
+)
+
+// c17Heavy is set while a case is drawn if it carries a string of 100 KB or more.
+var c17Heavy bool
 
 var protoInt = rapid.OneOf(
 	rapid.IntRange(0, 100),
@@ -108,7 +123,11 @@ func adjacent(rev int, ts ...int) bool {
 
 func (c *c17ctx) forRevs(name string, sample func() any, gates []int, f func(rev int) error) {
 	var n, nt int64
-	for _, rev := range c.revs {
+	revs := c.revs
+	if c17Heavy && len(revs) > 200 {
+		revs = quickRevisions()
+	}
+	for _, rev := range revs {
 		n++
 		if adjacent(rev, gates...) {
 			nt++
@@ -131,6 +150,7 @@ func TestC17Messages(t *testing.T) {
 	}
 	rapid.Check(t, func(rt *rapid.T) {
 		c := &c17ctx{rt: rt, revs: revs, st: st}
+		c17Heavy = false
 		which := rapid.IntRange(0, 10).Draw(rt, "message")
 		switch which {
 		case 0:
@@ -159,8 +179,8 @@ func TestC17Messages(t *testing.T) {
 
 func (c *c17ctx) clientHello() {
 	rt := c.rt
-	h := proto.ClientHello{Name: protoStr.Draw(rt, "name"), Major: protoInt.Draw(rt, "major"), Minor: protoInt.Draw(rt, "minor"),
-		ProtocolVersion: protoInt.Draw(rt, "rev"), Database: protoStr.Draw(rt, "db"), User: protoStr.Draw(rt, "user"), Password: protoStr.Draw(rt, "pass")}
+	h := proto.ClientHello{Name: protoStrWide.Draw(rt, "name"), Major: protoInt.Draw(rt, "major"), Minor: protoInt.Draw(rt, "minor"),
+		ProtocolVersion: protoInt.Draw(rt, "rev"), Database: protoStrWide.Draw(rt, "db"), User: protoStrWide.Draw(rt, "user"), Password: protoStrWide.Draw(rt, "pass")}
 	var b proto.Buffer
 	h.Encode(&b)
 	e := &ref.Enc{}
@@ -180,8 +200,8 @@ func (c *c17ctx) clientHello() {
 
 func (c *c17ctx) serverHello() {
 	rt := c.rt
-	h := proto.ServerHello{Name: protoStr.Draw(rt, "name"), Major: protoInt.Draw(rt, "major"), Minor: protoInt.Draw(rt, "minor"),
-		Revision: protoInt.Draw(rt, "rev"), Timezone: protoStr.Draw(rt, "tz"), DisplayName: protoStr.Draw(rt, "display"), Patch: protoInt.Draw(rt, "patch")}
+	h := proto.ServerHello{Name: protoStrWide.Draw(rt, "name"), Major: protoInt.Draw(rt, "major"), Minor: protoInt.Draw(rt, "minor"),
+		Revision: protoInt.Draw(rt, "rev"), Timezone: protoStrWide.Draw(rt, "tz"), DisplayName: protoStrWide.Draw(rt, "display"), Patch: protoInt.Draw(rt, "patch")}
 	c.forRevs("ServerHello", nil, []int{ref.RevTimezone, ref.RevDisplayName, ref.RevVersionPatch}, func(rev int) error {
 		var b proto.Buffer
 		h.EncodeAware(&b, rev)
@@ -245,7 +265,7 @@ func drawSettings(rt *rapid.T, label string) []proto.Setting {
 	n := rapid.IntRange(0, 4).Draw(rt, label+"-n")
 	var out []proto.Setting
 	for i := 0; i < n; i++ {
-		out = append(out, proto.Setting{Key: settingKey.Draw(rt, label+"-key"), Value: protoStr.Draw(rt, label+"-val"),
+		out = append(out, proto.Setting{Key: settingKey.Draw(rt, label+"-key"), Value: protoStrWide.Draw(rt, label+"-val"),
 			Important: rapid.Bool().Draw(rt, "important"), Custom: rapid.Bool().Draw(rt, "custom"), Obsolete: rapid.Bool().Draw(rt, "obsolete")})
 	}
 	return out
@@ -311,23 +331,23 @@ func infoEqual(a, b proto.ClientInfo) bool {
 func (c *c17ctx) query() {
 	rt := c.rt
 	q := proto.Query{
-		ID: protoStr.Draw(rt, "id"), Body: protoStr.Draw(rt, "body"), Secret: protoStr.Draw(rt, "secret"),
+		ID: protoStrWide.Draw(rt, "id"), Body: protoStrWide.Draw(rt, "body"), Secret: protoStrWide.Draw(rt, "secret"),
 		Stage:       proto.Stage(rapid.SampledFrom([]int{2, 2, 0, 1}).Draw(rt, "stage")),
 		Compression: proto.Compression(rapid.IntRange(0, 1).Draw(rt, "compression")),
 		Settings:    drawSettings(rt, "setting"),
 		Info: proto.ClientInfo{
 			ProtocolVersion: protoInt.Draw(rt, "inforev"), Major: protoInt.Draw(rt, "major"), Minor: protoInt.Draw(rt, "minor"), Patch: protoInt.Draw(rt, "patch"),
 			Interface: proto.InterfaceTCP, Query: proto.ClientQueryKind(rapid.SampledFrom([]int{1, 1, 2, 0}).Draw(rt, "querykind")),
-			InitialUser: protoStr.Draw(rt, "iuser"), InitialQueryID: protoStr.Draw(rt, "iqid"), InitialAddress: protoStr.Draw(rt, "iaddr"),
-			InitialTime: rapid.Int64().Draw(rt, "itime"), OSUser: protoStr.Draw(rt, "osuser"), ClientHostname: protoStr.Draw(rt, "host"),
-			ClientName: protoStr.Draw(rt, "cname"), Span: drawSpan(rt), QuotaKey: protoStr.Draw(rt, "quota"),
+			InitialUser: protoStrWide.Draw(rt, "iuser"), InitialQueryID: protoStrWide.Draw(rt, "iqid"), InitialAddress: protoStrWide.Draw(rt, "iaddr"),
+			InitialTime: rapid.Int64().Draw(rt, "itime"), OSUser: protoStrWide.Draw(rt, "osuser"), ClientHostname: protoStrWide.Draw(rt, "host"),
+			ClientName: protoStrWide.Draw(rt, "cname"), Span: drawSpan(rt), QuotaKey: protoStrWide.Draw(rt, "quota"),
 			DistributedDepth: protoInt.Draw(rt, "depth"), CollaborateWithInitiator: rapid.Bool().Draw(rt, "collab"),
 			CountParticipatingReplicas: protoInt.Draw(rt, "replicas"), NumberOfCurrentReplica: protoInt.Draw(rt, "replica"),
 		},
 	}
 	np := rapid.IntRange(0, 3).Draw(rt, "params")
 	for i := 0; i < np; i++ {
-		q.Parameters = append(q.Parameters, proto.Parameter{Key: settingKey.Draw(rt, "pkey"), Value: protoStr.Draw(rt, "pval")})
+		q.Parameters = append(q.Parameters, proto.Parameter{Key: settingKey.Draw(rt, "pkey"), Value: protoStrWide.Draw(rt, "pval")})
 	}
 	gates := []int{ref.RevSettingsAsStrings, ref.RevInterServerSecret, ref.RevOpenTelemetry, ref.RevDistributedDepth, ref.RevQueryStartTime,
 		ref.RevParallelReplicas, ref.RevParameters}
@@ -402,7 +422,7 @@ func (c *c17ctx) query() {
 
 func (c *c17ctx) clientData() {
 	rt := c.rt
-	d := proto.ClientData{TableName: protoStr.Draw(rt, "table")}
+	d := proto.ClientData{TableName: protoStrWide.Draw(rt, "table")}
 	c.forRevs("ClientData", nil, []int{ref.RevTempTables}, func(rev int) error {
 		var b proto.Buffer
 		d.EncodeAware(&b, rev)
@@ -599,8 +619,8 @@ func (c *c17ctx) profile() {
 
 func (c *c17ctx) exception() {
 	rt := c.rt
-	x := proto.Exception{Code: proto.Error(rapid.Int32().Draw(rt, "code")), Name: protoStr.Draw(rt, "name"), Message: protoStr.Draw(rt, "message"),
-		Stack: protoStr.Draw(rt, "stack"), Nested: rapid.Bool().Draw(rt, "nested")}
+	x := proto.Exception{Code: proto.Error(rapid.Int32().Draw(rt, "code")), Name: protoStrWide.Draw(rt, "name"), Message: protoStrWide.Draw(rt, "message"),
+		Stack: protoStrWide.Draw(rt, "stack"), Nested: rapid.Bool().Draw(rt, "nested")}
 	c.forRevs("Exception", nil, nil, func(rev int) error {
 		var b proto.Buffer
 		x.EncodeAware(&b, rev)
@@ -623,7 +643,7 @@ func (c *c17ctx) exception() {
 
 func (c *c17ctx) tableColumns() {
 	rt := c.rt
-	tc := proto.TableColumns{First: protoStr.Draw(rt, "first"), Second: protoStr.Draw(rt, "second")}
+	tc := proto.TableColumns{First: protoStrWide.Draw(rt, "first"), Second: protoStrWide.Draw(rt, "second")}
 	c.forRevs("TableColumns", nil, nil, func(rev int) error {
 		var b proto.Buffer
 		tc.EncodeAware(&b, rev)
